@@ -67,6 +67,20 @@ type vConn struct {
 	id          int
 	writeFailed bool
 	writesAfterFailure int
+	stall       bool // when the input is used up the client goes silent (Read blocks) instead of closing
+	doneCh      chan struct{} // native runs only: closed by the first Close
+}
+
+// vAwaitClosed (native runs of harnesses that let the library start its own
+// goroutines): wait until the server has closed the connection.
+func (c *vConn) vAwaitClosed() {
+	if c.doneCh == nil {
+		return
+	}
+	select {
+	case <-c.doneCh:
+	case <-time.After(3 * time.Second):
+	}
 }
 
 func vNewConn(data []byte) *vConn {
@@ -77,6 +91,9 @@ func (c *vConn) Read(p []byte) (int, error) {
 	if c.closed > 0 {
 		c.readsAfterClose++
 		return 0, net.ErrClosed
+	}
+	if c.stall && len(p) > 0 && len(c.in.data) == c.in.pos {
+		vStall()
 	}
 	return c.in.Read(p)
 }
@@ -97,7 +114,13 @@ func (c *vConn) Write(p []byte) (int, error) {
 	return len(p), nil
 }
 
-func (c *vConn) Close() error                       { c.closed++; return nil }
+func (c *vConn) Close() error {
+	c.closed++
+	if c.doneCh != nil && c.closed == 1 {
+		close(c.doneCh)
+	}
+	return nil
+}
 func (c *vConn) LocalAddr() net.Addr                { return vAddr{} }
 func (c *vConn) RemoteAddr() net.Addr               { return vAddr{c.id} }
 func (c *vConn) SetDeadline(t time.Time) error      { return nil }
